@@ -63,7 +63,7 @@ def setup():
         return real_new_loop()
 
     asyncio.new_event_loop = new_event_loop
-    d = tempfile.mkdtemp(prefix="verif-race-", dir="/dev/shm" if os.path.isdir("/dev/shm") else None)
+    d = tempfile.mkdtemp(prefix="verif-race-")
     static = os.path.join(d, "static.json")
     with open(static, "w") as f:
         json.dump([{"path": "*", "body": {}}], f)
